@@ -103,6 +103,12 @@ func optional(xs []int) {
 	) }, func() { var v = 1 })
 	both(make(chan<- int), make(chan int))
 	both(make(chan<- int), make(chan<- int))
+	// identifiers spelled like the metavariables of the vectors (x, y, i): ordinary names here
+	both(x.a, y.a)
+	both(x.a, x.a)
+	both(x+1, y+1)
+	both(m[x], m[i])
+	both(g(x), g(x))
 }
 
 func parens(a, b int) {
@@ -117,4 +123,62 @@ func parens(a, b int) {
 	_ = valueOf((*(&a)))
 	_ = neg(-(a))
 	_ = neg((-a))
+}
+
+func loops(xs []int, m map[string]int, n int) {
+	if n > 0 {
+		for i := 0; i < 10; i++ {
+			work(i)
+		}
+	}
+	if n > 1 {
+		for j := n; j > 0; j-- {
+			work(j)
+		}
+	}
+	func() {
+		for k := 1; k < n; k *= 2 {
+			work(k)
+		}
+	}()
+	if n > 2 {
+		for _, x := range xs {
+			work(x)
+		}
+	}
+	if n > 3 {
+		for k := range m {
+			work(k)
+		}
+	}
+	func() {
+		for k, v := range m {
+			work(v)
+			_ = k
+		}
+	}()
+	for n > 0 {
+		work(n)
+	}
+}
+
+func branches(h func(func()) interface{ Serve() }, c io.Closer) {
+	h(func() {
+		for {
+			break
+		}
+	}).Serve()
+	h(func() {
+		for i := 0; i < 3; i++ {
+			if i == 1 {
+				continue
+			}
+		}
+		switch {
+		case true:
+			fallthrough
+		default:
+		}
+	}).Serve()
+	c.Close()
 }
